@@ -25,11 +25,15 @@ PROFILES = ['sinc2', 'box', 'gaussian', 'lorentzian', 'voigt']
 DRIFTS = [0.0, 1e-4, -1e-4, 0.5, -0.5, 1.0, -1.0, 1.5, -1.5, 4.0, -4.0, None, None]
 
 
+LEVEL_TYPES = ['float', 'float', 'int', 'np.float64', 'np.float32', 'np.int64', 'np.int32']
+
+
 def required(tier):
     b = {f'profile:{p}': 20 for p in PROFILES}
     b.update({'smear:on': 100, 'smear:off': 100, 'drift:neg': 100, 'drift:zero': 20, 'drift:pos': 100,
               'width:sub-channel': 50, 'start:outside': 10, 'start:edge': 10, 'units:quantity': 50,
               'smear:drift-exact-multiple-of-unit': 40, 'start:edge-entry': 40})
+    b.update({'level-type:' + t: 100 for t in set(LEVEL_TYPES)})
     return {'buckets': b, 'counters': {'mandatory_pixels': 5000}, 'checks': 500, 'nontrivial': 200}
 
 
@@ -38,14 +42,14 @@ def gen_cases(seed, tier):
     n = 2600 if tier == 'quick' else 320000
     cases = []
     for i in range(n):
-        g = work_sig.gen_geometry(rng, tier, small=(i % 2 == 0))
+        g = work_sig.gen_geometry(rng, tier, small=(common.stratum(i, 131, 2) == 0))
         F = g['fchans']
-        prof = PROFILES[i % 5]
-        smear = bool((i // 5) % 2)
-        d = DRIFTS[(i // 10) % len(DRIFTS)]
+        prof = common.stratum(i, 132, PROFILES)
+        smear = bool(common.stratum(i, 133, 2))
+        d = common.stratum(i, 134, DRIFTS)
         if d is None:
             d = float(rng.uniform(-4, 4))
-        wc = (i // 130) % 3
+        wc = common.stratum(i, 135, 3)
         w = [float(rng.uniform(0.05, 0.5)), float(rng.uniform(0.5, 2)), float(rng.uniform(2, 10))][wc]
         r = rng.random()
         if r < 0.45:
@@ -56,7 +60,7 @@ def gen_cases(seed, tier):
             x, sc = float(common.pick(rng, [-1.0, -0.5, 0.0, 0.3, F - 1.3, F - 1.0, F - 0.5, F + 0.0])), 'edge'
         else:
             x, sc = float(common.pick(rng, [-rng.uniform(1.5, 8), F + rng.uniform(0.5, 8)])), 'outside'
-        if i % 25 == 11:
+        if common.stratum(i, 136, 25) == 11:
             # edge entry: the track is still a few channels OUTSIDE the band at the last time sample, but the smeared sub-steps of
             # the last row (up to one more time step of drift) reach the edge channel
             sc, smear = 'edge-entry', True
@@ -66,7 +70,7 @@ def gen_cases(seed, tier):
             out_by = float(rng.uniform(1.6, abs(d) - 0.3))          # distance of the last centre from the edge channel
             x = (-out_by - d * (Tn - 1)) if d > 0 else (F - 1 + out_by - d * (Tn - 1))
         cases.append(dict(geom=g, profile=prof, smear=smear, d=d, w=w, x=x, start_class=sc,
-                          level=float(common.pick(rng, [1.0, 10.0, 250.0])), units=bool(rng.integers(2)),
+                          level=float(common.pick(rng, [1.0, 10.0, 250.0])), units=bool(rng.integers(2)), level_type=common.stratum(i, 137, LEVEL_TYPES),
                           sub=int(rng.integers(2 ** 31))))
     return cases
 
@@ -118,7 +122,12 @@ def run_case(c, R):
         f_start = float(((f_start * 1e-6) * u.MHz).to(u.Hz).value)
     else:
         args = dict(f_start=f_start, drift_rate=drift, width=width)
-    h = fr.add_constant_signal(level=c['level'], f_profile_type=c['profile'], doppler_smearing=c['smear'], **args)
+    # the level as the kinds of number a caller has in hand (a numpy scalar read out of an array as readily as a Python float)
+    lt = c.get('level_type', 'float')
+    R.bucket('level-type:' + lt)
+    lvl = {'float': float, 'int': int, 'np.float64': np.float64, 'np.float32': np.float32, 'np.int64': np.int64,
+           'np.int32': np.int32}[lt](c['level'])
+    h = fr.add_constant_signal(level=lvl, f_profile_type=c['profile'], doppler_smearing=c['smear'], **args)
     R.count('helper_calls')
     R.check(isinstance(h, np.ndarray) and h.shape == tuple(fr.shape), 'return-shape')
     R.check(np.array_equal(fr.data, h), 'helper-data-delta-differs-from-return')
